@@ -35,6 +35,8 @@ mod spec_util;
 pub mod nonblocking;
 
 pub use self::tag_iterator::TagIterator;
+#[cfg(feature = "verif-hooks")]
+pub use self::tag_iterator::VerifIterState;
 pub use self::tag_writer::{TagWriter, WriteOptions};
 
 pub mod iterator {
